@@ -10,10 +10,14 @@
    hold of every state an agent-style history reaches (C16_hypotheses_reachable).
 
    holds_svc c id d  : the catalog's service row [id] is exactly [d]
-   holds_chk c id d  : the catalog's check row [id] equals [d] up to ServiceName/ServiceTags,
-                       which the catalog copies from its own service row
+   holds_chk c id d  : the catalog's check row [id] equals [d] up to ServiceName/ServiceTags (which the
+                       catalog copies from its own service row), an empty Status (defaulted to critical)
+                       and the four fields HealthCheck.IsSame never compares (Type, Interval, Timeout,
+                       ExposedPort: C16_ignored_fields_refuted shows they do NOT converge)
+   holds_ce c id e d : [holds_chk], except that the Output is ignored while the deferred-output timer of
+                       the entry [e] is pending (CheckUpdateInterval > 0; C16_deferred_output_refuted)
    refused_svc/chk   : the log contains an ACL refusal of the entry's registration *)
-From Verif Require Import Base.Prelude AE.Model AE.Basics AE.Steps AE.Inv AE.Proofs AE.Any AE.Conv AE.Hist AE.Witness.
+From Verif Require Import Base.Prelude AE.Model AE.Basics AE.Steps AE.Inv AE.Proofs AE.Any AE.Conv AE.Hist AE.More AE.Witness.
 From stdpp Require Import gmap.
 
 (* ---------------------------------------------------------------- convergence *)
@@ -59,7 +63,7 @@ Theorem C16_no_false_insync : forall g os oc st c fs st' c' fs' log err,
   (forall id e d, l_svcs st' !! id = Some e -> se_sync e = true -> se_del e = false -> se_def e = Some d ->
      holds_svc c' id d \/ refused_svc log id \/ l_svcs st !! id = Some e) /\
   (forall id e d, l_chks st' !! id = Some e -> ce_sync e = true -> ce_del e = false -> ce_def e = Some d ->
-     holds_chk c' id d \/ refused_chk log id \/ l_chks st !! id = Some e).
+     holds_ce c' id e d \/ refused_chk log id \/ l_chks st !! id = Some e).
 Proof. exact no_false_insync_changes. Qed.
 
 (* Full sync (SyncFull), every fault list, every order: either the reads failed and nothing
@@ -71,11 +75,12 @@ Theorem C16_no_false_insync_full : forall g os oc st c fs st' c' fs' log err,
   ((forall id e d, l_svcs st' !! id = Some e -> se_sync e = true -> se_del e = false -> se_def e = Some d ->
       holds_svc c' id d \/ refused_svc log id) /\
    (forall id e d, l_chks st' !! id = Some e -> ce_sync e = true -> ce_del e = false -> ce_def e = Some d ->
-      holds_chk c' id d \/ refused_chk log id)).
+      holds_ce c' id e d \/ refused_chk log id)).
 Proof. exact no_false_insync_full. Qed.
 
 (* For SERVICES both claims (no false in-sync mark, deletions remembered) hold of ANY local state
-   and any catalog, with no hypothesis at all — every fault list, every order. *)
+   and any catalog (no hypothesis; on states with a live entry without definition, which no history
+   reaches, the model skips the entry where Go would dereference nil) — every fault list, every order. *)
 Theorem C16_services_any_state : forall g os oc st c fs st' c' fs' log err,
   sync_changes g os oc st c fs = (st', c', fs', log, err) ->
   (forall id e d, l_svcs st' !! id = Some e -> se_sync e = true -> se_del e = false -> se_def e = Some d ->
@@ -113,9 +118,12 @@ Theorem C16_local_remove_check : forall id st st' r c,
   remove_check id st = (st', r) -> honest st c -> honest st' c.
 Proof. exact remove_check_honest. Qed.
 
-Theorem C16_local_update_check : forall id status out st c,
-  honest st c -> honest (update_check id status out st) c.
+Theorem C16_local_update_check : forall interval id status out st c,
+  honest st c -> honest (update_check interval id status out st) c.
 Proof. exact update_check_honest. Qed.
+
+Theorem C16_local_timer_fires : forall id st c, honest st c -> honest (timer_fires id st) c.
+Proof. exact timer_fires_honest. Qed.
 
 (* Regression examples (current behaviour) for the two defects repaired in 9a2a9bf: on the state
    where "web" was registered and its push failed, registering it again leaves it out of sync; a
@@ -150,7 +158,7 @@ Theorem C16_retry_marked : forall g st c,
   (forall id e d, l_svcs (uss_apply g st c) !! id = Some e -> se_del e = false -> se_def e = Some d ->
      ~ holds_svc c id d -> se_sync e = false) /\
   (forall id e d, l_chks (uss_apply g st c) !! id = Some e -> ce_del e = false -> ce_def e = Some d ->
-     ~ holds_chk c id d -> ce_sync e = false).
+     ~ holds_ce c id e d -> ce_sync e = false).
 Proof. exact retry_marked. Qed.
 
 (* ... and the full sync pushes it again (a Register RPC for it appears in the log), unless the
@@ -161,7 +169,7 @@ Theorem C16_retry : forall g os oc st c fs st' c' fs' log err,
   ((forall id e d, l_svcs (uss_apply g st c) !! id = Some e -> se_del e = false -> se_def e = Some d ->
       ~ holds_svc c id d -> In id os -> pushed_svc log id) /\
    (forall id e d, l_chks (uss_apply g st c) !! id = Some e -> ce_del e = false -> ce_def e = Some d ->
-      ~ holds_chk c id d -> In id oc -> pushed_chk log id)).
+      ~ holds_ce c id e d -> In id oc -> pushed_chk log id)).
 Proof. exact retry_full. Qed.
 
 (* A partial sync pushes every visited live entry that is out of sync. *)
@@ -205,6 +213,98 @@ Theorem C16_deletes_remembered_rebound_refuted :
     let '(st', c', _, _, _) := sync_full g os oc st c [] in
     l_chks st' !! id = None /\ is_Some (c_chks c' !! id).
 Proof. exact deletes_remembered_rebound_refuted. Qed.
+
+(* ---------------------------------------------------------------- further clauses *)
+
+(* Deregistrations are retried: every visited entry that is marked deleted gets a Deregister RPC in
+   a partial sync (a check may instead be dropped together with its service), whatever its InSync
+   flag says (deleteService/deleteCheck set it on an ACL refusal) — every fault list, every order. *)
+Theorem C16_retry_delete : forall g os oc st c fs st' c' fs' log err,
+  sync_changes g os oc st c fs = (st', c', fs', log, err) ->
+  (forall id e, l_svcs st !! id = Some e -> se_del e = true -> In id os -> del_svc_rpc log id \/ node_failed log) /\
+  (forall id e, l_chks st !! id = Some e -> ce_del e = true -> In id oc ->
+     del_chk_rpc log id \/ l_chks st' !! id = None \/ node_failed log).
+Proof. exact retry_delete_changes. Qed.
+
+(* SyncFull returned nil (err = false) under ANY fault list — in particular with ACL refusals, which
+   do not make it fail: every entry left is marked in sync; a live one is held by the catalog or its
+   registration was refused in this sync; one still marked deleted had its deregistration refused. *)
+Theorem C16_successful_sync : forall g os oc st c fs st' c' fs' log,
+  wf_local st -> c_svcs c !! 0%N = None ->
+  covers (l_svcs st) os -> covers (c_svcs c) os -> covers (l_chks st) oc -> covers (c_chks c) oc ->
+  sync_full g os oc st c fs = (st', c', fs', log, false) ->
+  (forall id e, l_svcs st' !! id = Some e ->
+     se_sync e = true /\
+     (se_del e = true -> refused_del_svc log id) /\
+     (se_del e = false -> forall d, se_def e = Some d -> holds_svc c' id d \/ refused_svc log id)) /\
+  (forall id e, l_chks st' !! id = Some e ->
+     ce_sync e = true /\
+     (ce_del e = true -> refused_del_chk log id) /\
+     (ce_del e = false -> forall d, ce_def e = Some d -> holds_ce c' id e d \/ refused_chk log id)).
+Proof. exact sync_full_success. Qed.
+
+(* From a state where every in-sync entry is held, a partial sync under any faults leaves every
+   live in-sync entry held or refused (no "it was like that before" disjunct). *)
+Theorem C16_honest_partial_sync : forall g os oc st c fs st' c' fs' log err,
+  wf_local st -> honest st c -> sync_changes g os oc st c fs = (st', c', fs', log, err) ->
+  (forall id e d, l_svcs st' !! id = Some e -> se_sync e = true -> se_del e = false -> se_def e = Some d ->
+     holds_svc c' id d \/ refused_svc log id) /\
+  (forall id e d, l_chks st' !! id = Some e -> ce_sync e = true -> ce_del e = false -> ce_def e = Some d ->
+     holds_ce c' id e d \/ refused_chk log id).
+Proof. exact honest_sync_changes. Qed.
+
+(* End to end: ANY agent-style history under ANY faults, then two fault-free full syncs: converged. *)
+Theorem C16_history_then_two_syncs : forall g ss fs st c fs0 os oc os2 oc2 st1 c1 fs1 log1 err1 st2 c2 fs2 log2 err2,
+  agent_hist g ss lstate0 cat0 fs -> run_hist g ss lstate0 cat0 fs = (st, c, fs0) ->
+  covers (l_svcs st) os -> covers (c_svcs c) os -> covers (l_chks st) oc -> covers (c_chks c) oc ->
+  sync_full g os oc st c [] = (st1, c1, fs1, log1, err1) ->
+  covers (l_svcs st1) os2 -> covers (c_svcs c1) os2 -> covers (l_chks st1) oc2 -> covers (c_chks c1) oc2 ->
+  sync_full g os2 oc2 st1 c1 [] = (st2, c2, fs2, log2, err2) ->
+  err1 = false /\ err2 = false /\ converged g st1 c1 st2 c2.
+Proof. exact history_then_two_syncs. Qed.
+
+(* ---------------------------------------------------------------- the two exceptions to "equal" *)
+
+(* "The catalog equals the local registrations" read literally (exact Output, exact
+   Type/Interval/Timeout/ExposedPort) is refuted twice; [converged] holds in both witnesses. *)
+
+(* (1) CheckUpdateInterval > 0, the agent's default: an Output-only update is deferred (local
+   definition changes, InSync stays, a timer starts); the diff of a full sync then blanks the Output
+   on both sides: after a fault-free full sync the check is in sync and the catalog's Output is stale. *)
+Theorem C16_deferred_output_refuted :
+  exists g os oc st c st' c' fs' log err,
+    wf_local st /\ wf_cat c /\ bind_ok st c /\
+    covers (l_svcs st) os /\ covers (c_svcs c) os /\ covers (l_chks st) oc /\ covers (c_chks c) oc /\
+    sync_full g os oc st c [] = (st', c', fs', log, err) /\ err = false /\
+    exists id e d, l_chks st' !! id = Some e /\ ce_def e = Some d /\ ce_sync e = true /\ ce_del e = false /\
+                   ce_defer e = true /\ ~ holds_chk c' id d.
+Proof. exact deferred_output_refuted. Qed.
+
+(* The exception is exactly that: with no timer pending [holds_ce] is [holds_chk], syncs never start
+   a timer, and once the timer has fired a partial sync pushes the Output. *)
+Theorem C16_no_timer_exact : forall c id e d, ce_defer e = false -> holds_ce c id e d -> holds_chk c id d.
+Proof. exact holds_ce_exact. Qed.
+
+Theorem C16_no_timer_preserved : forall g os oc st c fs st' c' fs' log err,
+  no_defer st -> sync_full g os oc st c fs = (st', c', fs', log, err) -> no_defer st'.
+Proof. exact no_defer_sync_full. Qed.
+
+Example C16_deferred_output_after_timer :
+  let st := fst (state_of_g g0d (h_defer ++ [STimer 1; SSyncChanges all_s all_c]) []) in
+  let c := snd (state_of_g g0d (h_defer ++ [STimer 1; SSyncChanges all_s all_c]) []) in
+  exists e, l_chks st !! 1%N = Some e /\ ce_sync e = true /\ ce_defer e = false /\ holds_chk c 1 chk_web_out2.
+Proof. exact deferred_output_after_timer. Qed.
+
+(* (2) HealthCheck.IsSame does not compare Type, Interval, Timeout, ExposedPort: a check re-registered
+   with only these changed stays in sync and is never pushed (and drift in them is never repaired). *)
+Theorem C16_ignored_fields_refuted :
+  exists g os oc st c st' c' fs' log err,
+    wf_local st /\ wf_cat c /\ bind_ok st c /\
+    covers (l_svcs st) os /\ covers (c_svcs c) os /\ covers (l_chks st) oc /\ covers (c_chks c) oc /\
+    sync_full g os oc st c [] = (st', c', fs', log, err) /\ err = false /\
+    exists id e d r, l_chks st' !! id = Some e /\ ce_def e = Some d /\ ce_sync e = true /\ ce_del e = false /\
+                     ce_defer e = false /\ c_chks c' !! id = Some r /\ ck_aux r <> ck_aux d.
+Proof. exact ignored_fields_refuted. Qed.
 
 (* ---------------------------------------------------------------- the hypotheses are not vacuous *)
 
@@ -252,6 +352,16 @@ Print Assumptions C16_retry_partial_sync.
 Print Assumptions C16_deletes_remembered.
 Print Assumptions C16_deletes_remembered_full.
 Print Assumptions C16_deletes_remembered_rebound_refuted.
+Print Assumptions C16_local_timer_fires.
+Print Assumptions C16_retry_delete.
+Print Assumptions C16_successful_sync.
+Print Assumptions C16_honest_partial_sync.
+Print Assumptions C16_history_then_two_syncs.
+Print Assumptions C16_deferred_output_refuted.
+Print Assumptions C16_no_timer_exact.
+Print Assumptions C16_no_timer_preserved.
+Print Assumptions C16_deferred_output_after_timer.
+Print Assumptions C16_ignored_fields_refuted.
 Print Assumptions C16_hypotheses_reachable.
 Print Assumptions C16_converges_hypotheses_met.
 Print Assumptions C16_faulty_state_wf.
